@@ -1,6 +1,8 @@
 package engine
 
 import (
+	"bytes"
+
 	"github.com/cockroachdb/pebble"
 	"github.com/youzan/ZanRedisDB/common"
 )
@@ -58,7 +60,12 @@ func (it *pebbleIterator) Seek(key []byte) {
 	it.Iterator.SeekGE(key)
 }
 
+// SeekForPrev moves to the last key which is less than or equal to the target (as rocksdb does).
 func (it *pebbleIterator) SeekForPrev(key []byte) {
+	// SeekLT is strictly less, so look for the target itself first
+	if it.Iterator.SeekGE(key) && bytes.Equal(it.Iterator.Key(), key) {
+		return
+	}
 	it.Iterator.SeekLT(key)
 }
 
